@@ -32,6 +32,11 @@ def func(fx, module, name, krate="proguard"):
     want = "%s::%s::%s" % (krate, module, name)
     r = [p for p, b in fx.bodies.items() if p == want and b["kind"] == "Fn"]
     if not r and krate == "proguard":
+        # moved to another module (or into a private submodule) under the same name: still that function when the name is unique
+        r = [p for p, b in fx.bodies.items() if b["krate"] == krate and b["kind"] == "Fn" and p.rsplit("::", 1)[-1] == name]
+        if len(r) != 1:
+            r = []
+    if not r and krate == "proguard":
         import roles
         r = roles.resolve(fx, module, name)
     return r
